@@ -168,6 +168,15 @@ impl Refint {
         r
     }
 
+    /// like `new`, for programs whose globals include kinds this interpreter does not model (lists, divert
+    /// targets): those are simply absent, and any use of them makes the evaluation unsupported
+    pub fn new_lenient(p: &Program, ir: Rc<Ir>, fuel: u64) -> Refint {
+        let mut r = Refint::new(p, ir, fuel);
+        r.status = Status::Running;
+        r.globals.retain(|n, _| p.globals.iter().any(|(g, e)| g == n && matches!(e, Expr::Int(_) | Expr::Bool(_) | Expr::Str(_))));
+        r
+    }
+
     fn note(&mut self, k: &'static str) {
         *self.seen.entry(k).or_insert(0) += 1;
     }
@@ -851,6 +860,18 @@ impl Refint {
         let lines = self.deliver();
         let choice_tags = self.choices.iter().filter(|c| !c.invisible).map(|c| c.tags.clone()).collect();
         Segment { lines, choices: self.visible_choices(), choice_tags, status: self.status.clone() }
+    }
+
+    /// What a host evaluation of an ink function must return: (value, printed text). The globals must have been
+    /// set by the caller; nothing else of the story is consulted.
+    pub fn host_call(&mut self, name: &str, args: Vec<V>) -> Result<(Option<V>, String), Status> {
+        if self.ir.knot_kind.get(name) != Some(&KnotKind::Function) {
+            return Err(Status::Unsupported(format!("{name} is not a function")));
+        }
+        self.stream.clear();
+        let v = self.call_function(name, args, &(String::new(), String::new()))?;
+        let lines = self.deliver();
+        Ok((v, lines.iter().map(|l| l.0.clone()).collect::<Vec<_>>().join("\n")))
     }
 
     pub fn visible_choices(&self) -> Vec<String> {
